@@ -14,8 +14,9 @@ def load_claims():
     """one JSON file per claimed property: tools/claims/Cxx.json with keys text, note, technique, design [, category]"""
     out = {}
     d = os.path.join(V, "tools", "claims")
+    enabled = set(open(os.path.join(d, "ENABLED")).read().split())   # the coordinator enables a property once its quick check is green
     for f in sorted(os.listdir(d)):
-        if f.endswith(".json"):
+        if f.endswith(".json") and f[:-5] in enabled:
             c = json.load(open(os.path.join(d, f)))
             c["note"] = NOTE_COMMON + c.get("note", "")
             out[f[:-5]] = c
